@@ -11,6 +11,8 @@ case = case.get("case", case)
 mod = load_check(prop); ctx = Ctx(prop, "quick", 0)
 if hasattr(mod, "setup"): mod.setup(ctx)
 ctx.begin(case)
+from vf.core import case_hash
+torch.manual_seed(int(case_hash(case), 16) % (2**31))
 try:
     mod.run_case(case, ctx)
 except Reject as e:
